@@ -77,6 +77,70 @@ def anon_locals(func, text):
     return re.sub(r"(?<![\w.])(" + "|".join(sorted(map(re.escape, local), key=len, reverse=True)) + r")(?!\w)", "?", text)
 
 
+def late_binding_closures(func_node):
+    """Closures that outlive the iteration whose variable they read: a lambda / local function that is *stored* as (part of) the
+    element of a comprehension, or stored / appended inside a for loop, and reads the loop variable as a free variable.  Python
+    binds free variables when the closure is CALLED, so after the loop every such closure sees the LAST value of the variable
+    (pylint W0640).  Binding through a default argument (lambda x, e=e: ..) is the idiom that avoids it and is not reported.
+    -> [(closure node, variable name, loop / comprehension node)]"""
+    out = []
+    COMP = (ast.ListComp, ast.SetComp, ast.DictComp, ast.GeneratorExp)
+
+    def targets(t):
+        return {x.id for x in ast.walk(t) if isinstance(x, ast.Name)}
+
+    def free_reads(clo):
+        a = clo.args
+        bound = {x.arg for x in a.posonlyargs + a.args + a.kwonlyargs}
+        if a.vararg:
+            bound.add(a.vararg.arg)
+        if a.kwarg:
+            bound.add(a.kwarg.arg)
+        body = clo.body if isinstance(clo.body, list) else [clo.body]
+        for st in body:
+            for x in ast.walk(st):
+                if isinstance(x, ast.Name) and isinstance(x.ctx, ast.Store):
+                    bound.add(x.id)
+        return {x.id for st in body for x in ast.walk(st) if isinstance(x, ast.Name) and isinstance(x.ctx, ast.Load)} - bound
+
+    for clo in ast.walk(func_node):
+        if not isinstance(clo, (ast.Lambda, ast.FunctionDef)) or clo is func_node:
+            continue
+        reads = free_reads(clo)
+        if not reads:
+            continue
+        child, p = clo, getattr(clo, "_parent", None)
+        stored = True  # only container literals / conditional expressions between the closure and the loop
+        while p is not None and p is not func_node:
+            if isinstance(p, COMP):
+                if stored and child is not p.generators[0].iter:
+                    vars_ = set()
+                    for g in p.generators:
+                        vars_ |= targets(g.target)
+                    for v in sorted(reads & vars_):
+                        out.append((clo, v, p))
+                break
+            if isinstance(p, ast.For):
+                # stored when the statement holding it is `x[..] = clo`, `x = clo` (then used after the loop) or `x.append(clo)`
+                st = enclosing_stmt(clo)
+                keeps = isinstance(st, ast.Assign) and any(isinstance(t, (ast.Subscript, ast.Attribute)) for t in st.targets) and st.value is clo
+                if isinstance(st, ast.Expr) and isinstance(st.value, ast.Call) and isinstance(st.value.func, ast.Attribute) \
+                        and st.value.func.attr in ("append", "add", "insert", "setdefault", "update") and any(clo is a for a in st.value.args):
+                    keeps = True
+                if keeps and child in p.body:
+                    for v in sorted(reads & targets(p.target)):
+                        out.append((clo, v, p))
+                break
+            if isinstance(p, (ast.Lambda, ast.FunctionDef)):
+                break
+            if isinstance(p, ast.Call) and child is not p.func and not (isinstance(child, ast.keyword) and child.arg is None):
+                stored = False  # handed to a call inside the iteration: may be invoked right away
+            elif not isinstance(p, (ast.Dict, ast.Tuple, ast.List, ast.Set, ast.IfExp, ast.Starred, ast.keyword, ast.Call)):
+                stored = stored and isinstance(p, ast.expr)
+            child, p = p, getattr(p, "_parent", None)
+    return out
+
+
 def expr_text(node, limit=160):
     s = " ".join(ast.unparse(node).split())
     return s[:limit]
